@@ -34,6 +34,10 @@ claimed = {
    text="Proof over every handler found by mechanical enumeration (all methods of all types implementing a module's generated MsgServer interface): for each of the 38 handlers whose message carries a governance authority (field Authority, or Creator in the parameter module) the generated contract {msg.authority != k.authority} H {err != nil and no state-changing primitive ran} holds on every path; a message type with an Authority field that is never compared fails. Owner-scoped: tradeshield update/cancel (spot, perpetual, batch forms) succeed only when the stored order's owner equals the sender.",
    note=COMMON_NOTE + "Handlers without a governance authority are listed in the evidence, not claimed. Owner-keyed position lookups of leveragelp/perpetual close are covered under C10 where claimed.",
    ref="§8 C17"),
+ "C19": dict(
+   text="Proof of a sufficient condition, over every non-test function of x/ and app/ reachable in the static call graph from a message handler, block function, hook, ante/IBC callback, genesis or upgrade function (870 entry points, ~1500 functions): (a) no store to a package-level variable and no store through a keeper/server/module receiver outside construction, so consensus state lives in the KV stores only and a restart re-reads the same world; (b) no wall clock, randomness, environment, goroutine or select, except time.Now() whose value flows only into telemetry; (c) every range over a Go map is order-independent: recognised commutative forms, or (burner) a `commutes` contract clause discharged by symbolic execution of both orders on the ghost world. Equality of application hashes across processes, database recovery and codec determinism are not decidable by contracts on this code (they sit in the SDK/CometBFT/IAVL, T1/T5) and are not claimed.",
+   note=COMMON_NOTE + "The call graph is class-hierarchy based (superset of the real wiring). Transient-store scratch and sort stability are not examined.",
+   ref="§8 C19"),
  "C20": dict(
    text="Proof on every tradeshield order handler and execution helper: create escrows exactly the order amount/collateral under the owner's name; update changes no balance and keeps owner/amount; cancel (single and batch) succeeds only for the owner, returns the full escrow, removes the order and moves nobody else's funds; execution helpers conserve owner wallet + escrow on every exit (the caller swallows errors), move nothing unless the module's own price call satisfies the trigger, and never touch escrows of other orders of either kind (address templates proved distinct, not assumed); batch execution of spot orders moves funds only between listed escrows and their owners. A genuine defect (failed limit-open execution committing a half-opened position) was found by a failing obligation, reproduced on the real keeper and repaired by a fix: commit.",
    note=COMMON_NOTE + "amm swap acceptance is summarised by a proved frame (only the request queue changes); perpetual.Open is read as arbitrary state change on whatever context it is given. Order-id collections bounded to 2 in the batch obligations (labelled bounded).",
